@@ -17,7 +17,6 @@ import (
 	"fmt"
 	"io"
 	"math"
-	"os"
 	"sort"
 	"strings"
 	"testing"
@@ -188,6 +187,7 @@ type c03Quota struct {
 	RV         int
 	MaxLowered bool
 	Imported   bool // an assigned pod was moved in from the default quota (migration): that bypasses admission
+	Window     bool // a parked pod was reserved into / rolled back on this quota's path inside the window (signature attribution only)
 	Children   []string
 }
 
@@ -254,7 +254,6 @@ type c03Case struct {
 	special  bool // some pods go to the default / system quota in this case
 	late     []*c03Late
 	baseDims []corev1.ResourceName
-	window   bool // $VERIF_C03_WINDOW=1: also schedule / roll back parked pods between quota creation and migration
 	tight    bool // small cluster: runtime quotas well below max
 	podSeq   int
 	nodes    map[string]*c03Node
@@ -526,7 +525,6 @@ func c03NewCase(t *rapid.T, p *Plugin, c *vk.Case, rtOn, parOn bool) *c03Case {
 	}
 	c.ClassIf(mixed, "top-level-subtrees-with-different-dimensions")
 	h.baseDims = base
-	h.window = os.Getenv("VERIF_C03_WINDOW") == "1"
 	for i, n := 0, rapid.SampledFrom([]int{0, 1, 1, 1, 2}).Draw(t, "lateQuotas"); i < n; i++ {
 		l := &c03Late{Name: fmt.Sprintf("z%d", i+1)}
 		var parents []string
@@ -758,9 +756,6 @@ func (h *c03Case) pick(t *rapid.T, state int, label string, prefer func(*c03Pod)
 	var names, pref []string
 	for _, n := range h.podNames() {
 		pd := h.pods[n]
-		if state == c03Pending && h.inWindow(pd) && !h.window {
-			continue // see inWindow
-		}
 		if pd.State == state || (state == -1 && pd.State != c03Pending) {
 			names = append(names, n)
 			if prefer != nil && prefer(pd) {
@@ -817,11 +812,32 @@ func (h *c03Case) leavesUnderFullAncestor() []string {
 
 // a parked pod whose quota has been created but which the migration cycle has not moved yet. During that window
 // (at most one migration period, 1 s) the plugin resolves the pod to the new quota while the manager still holds it
-// in the default quota: pod update / delete events are routed to the holding quota, but ReservePod / UnreservePod on
-// the new quota are no-ops for it. By default the harness therefore neither schedules nor rolls back such a pod
-// inside the window (stated assumption); $VERIF_C03_WINDOW=1 lifts the restriction.
+// in the default quota. Pod update / delete events, Reserve and Unreserve all have to act on the quota that holds the
+// pod: a pod scheduled inside the window is admitted against its own quota and charged to it from Reserve on (the
+// manager migrates it first); a pod reserved in the default quota earlier and rolled back inside the window is released
+// from the default quota. (Before koordinator commit 8efd15b ReservePod / UnreservePod were no-ops for such a pod.)
 func (h *c03Case) inWindow(pd *c03Pod) bool {
 	return pd.Parked && h.quotas[pd.Label] != nil
+}
+
+func (h *c03Case) taintWindow(q *c03Quota) {
+	q.Window = true
+	for _, a := range h.chain(q) {
+		a.Window = true
+	}
+}
+
+// signature suffix when the quota (or an ancestor) saw a Reserve / Unreserve of a parked pod inside the window: the
+// defect fixed by koordinator commit 8efd15b shows up as a wrong verdict on exactly these quotas
+func (h *c03Case) windowSuffix(q *c03Quota) string {
+	tainted := q.Window
+	for _, a := range h.chain(q) {
+		tainted = tainted || a.Window
+	}
+	if tainted {
+		return ":after-reserve-or-unreserve-of-parked-pod-in-migration-window"
+	}
+	return ""
 }
 
 // the pod now counts against the quota its label names (migration cycle, or a pod update that lands in the window)
@@ -942,7 +958,14 @@ func (h *c03Case) deletePod(t *rapid.T, pd *c03Pod) {
 }
 
 func (h *c03Case) finishBinding(t *rapid.T, pd *c03Pod) {
-	if rapid.IntRange(0, 2).Draw(t, "bindFails") == 0 && (!h.inWindow(pd) || h.window) {
+	if rapid.IntRange(0, 2).Draw(t, "bindFails") == 0 {
+		if h.inWindow(pd) {
+			// reserved in the default quota before its quota existed, rolled back now: released from the default quota,
+			// the pod stays parked (pending) there until it is migrated or scheduled again
+			h.c.Class("rolled-back-in-window")
+			h.taintWindow(h.quotas[pd.Quota])
+			h.taintWindow(h.quotas[pd.Label])
+		}
 		h.p.Unreserve(context.TODO(), framework.NewCycleState(), pd.Obj, "n1")
 		pd.State = c03Pending
 		h.released(pd)
@@ -1124,9 +1147,12 @@ func (h *c03Case) describeCode(pd *c03Pod, sums map[string]*core.QuotaInfoSummar
 
 // one scheduling attempt of a pending pod: PreFilter, checked; on success Reserve
 func (h *c03Case) schedule(t *rapid.T, pd *c03Pod, midCycle func()) {
-	if h.inWindow(pd) { // only with $VERIF_C03_WINDOW=1: the plugin checks (and the pod is meant to be charged to) the new quota
+	if h.inWindow(pd) {
+		// the plugin checks the pod against its own, now existing, quota; from Reserve on it is charged there. A pending
+		// pod holds nothing, so the model can move it right away whatever the verdict.
 		pd.Quota, pd.Parked = pd.Label, false
-		h.c.Class("scheduled-in-the-window(opt-in)")
+		h.c.Class("scheduled-in-window")
+		h.taintWindow(h.quotas[pd.Quota])
 	}
 	own := h.quotas[pd.Quota]
 	mgr := h.p.groupQuotaManager
@@ -1160,6 +1186,9 @@ func (h *c03Case) schedule(t *rapid.T, pd *c03Pod, midCycle func()) {
 			sig = "admit:ancestor-over-limit"
 		}
 		if sig != "" {
+			if !strings.Contains(sig, "default-or-system") {
+				sig += h.windowSuffix(own)
+			}
 			if h.c.Violation(t, sig, "pod %s (request %s, nonPreemptible=%v) admitted into %s although %v;%s %s", pd.Name, c03Str(pd.Req), pd.NonPre,
 				own.Name, vb.why, h.describeCode(pd, before), h.dump()) {
 				h.dead = true
@@ -1196,7 +1225,7 @@ func (h *c03Case) schedule(t *rapid.T, pd *c03Pod, midCycle func()) {
 		h.logf("schedule %s -> rejected (%s)", pd.Name, status.Message())
 		// rejected => at least one inequality is false
 		if vb.own && vb.np && vb.ancWide && va.own && va.np && va.ancWide {
-			if h.c.Violation(t, "reject:no-limit-exceeded", "pod %s (quota %s, request %s, nonPreemptible=%v) rejected with %q although no limit would be exceeded;%s %s",
+			if h.c.Violation(t, "reject:no-limit-exceeded"+h.windowSuffix(own), "pod %s (quota %s, request %s, nonPreemptible=%v) rejected with %q although no limit would be exceeded;%s %s",
 				pd.Name, own.Name, c03Str(pd.Req), pd.NonPre, status.Message(), h.describeCode(pd, before), h.dump()) {
 				h.dead = true
 				return
@@ -1250,6 +1279,8 @@ func (h *c03Case) invariant(t *rapid.T) {
 				sig := "invariant:used-above-max"
 				if q.Special && h.rtOn {
 					sig = "invariant:used-above-max:default-or-system-quota-with-runtime-quota-on"
+				} else {
+					sig += h.windowSuffix(q)
 				}
 				if h.c.Violation(t, sig, "quota %s %s: plugin shows used %d, assigned pods sum to %d, max %d (max never lowered); runtime=%s; %s",
 					name, d, shown, mu[d], q.Max[d], c03Str(c03FromList(s.Runtime)), h.dump()) {
@@ -1264,7 +1295,7 @@ func (h *c03Case) invariant(t *rapid.T) {
 // ---------------------------------------------------------------- the state machine
 
 // rapid's Repeat decides "one more action?" with a coin whose bias depends on -rapid.steps, so a recorded (shrunk)
-// fail file only replays under the value it was recorded with. The registry runs this property with steps=50; when
+// fail file only replays under the value it was recorded with. The registry runs this property with steps=60; when
 // the flag is not given at all (the driver's --replay of a .fail file and its regress jobs do not pass it) pin it to
 // that value instead of rapid's default of 30, otherwise such a replay silently passes.
 func c03PinSteps() {
@@ -1275,7 +1306,7 @@ func c03PinSteps() {
 		}
 	})
 	if !explicit {
-		_ = flag.Set("rapid.steps", "50")
+		_ = flag.Set("rapid.steps", "60")
 	}
 }
 
@@ -1304,6 +1335,11 @@ func c03Run(t *testing.T, unit string, rtOn, parOn bool) {
 			}
 			// mostly pods that have a chance: never refused so far, or something was freed on their path since
 			hopeful := func(x *c03Pod) bool { return !x.Rejected || h.relByQ[x.Quota] }
+			if pk := h.pick(t, c03Pending, "parkedPod", func(x *c03Pod) bool { return x.Parked && !x.Rejected }); pk != nil && pk.Parked && !pk.Rejected &&
+				rapid.IntRange(0, 2).Draw(t, "parkedFirst") == 0 {
+				h.schedule(t, pk, nil) // a parked pod runs in the default quota before its own quota appears
+				return
+			}
 			pd := h.pick(t, c03Pending, "pendingPod", hopeful)
 			fresh := 1 // in 6
 			if pd != nil && !hopeful(pd) {
@@ -1359,6 +1395,19 @@ func c03Run(t *testing.T, unit string, rtOn, parOn bool) {
 			}
 			h.deletePod(t, pd)
 		}
+		doMigrate := func(t *rapid.T) {
+			if h.dead {
+				return
+			}
+			any := false
+			for _, n := range h.podNames() {
+				any = any || h.inWindow(h.pods[n])
+			}
+			if !any && rapid.IntRange(0, 7).Draw(t, "idleMigration") > 0 {
+				t.Skip("nothing to migrate")
+			}
+			h.migrate()
+		}
 		t.Repeat(map[string]func(*rapid.T){
 			"schedule":  doSchedule,
 			"schedule2": doSchedule,
@@ -1401,19 +1450,8 @@ func c03Run(t *testing.T, unit string, rtOn, parOn bool) {
 				}
 				h.lateQuotaCreate(t, l)
 			},
-			"migrate": func(t *rapid.T) {
-				if h.dead {
-					return
-				}
-				any := false
-				for _, n := range h.podNames() {
-					any = any || h.inWindow(h.pods[n])
-				}
-				if !any && rapid.IntRange(0, 7).Draw(t, "idleMigration") > 0 {
-					t.Skip("nothing to migrate")
-				}
-				h.migrate()
-			},
+			"migrate":  doMigrate,
+			"migrate2": doMigrate,
 			"quotaUpdate": func(t *rapid.T) {
 				if !h.dead {
 					h.quotaUpdate(t)
